@@ -335,8 +335,9 @@ theorem pruned_start_rejected (cfg : Cfg) (n : Node) (f : Filter) (fromB toB chu
     apiEvents cfg n f fromB toB tok chunk limit = (wake cfg n, .err .pruned) := by
   obtain ⟨hc, hf, _, _, _, _⟩ := wake_fields cfg n
   rw [← hc] at h1; rw [← hf] at h2
+  simp only [apiEvents]
   generalize wake cfg n = n at h1 h2
-  simp only [apiEvents, query, events_eq]
+  simp only [query, events_eq]
   cases hl : n.chain.length with
   | zero => omega
   | succ latest =>
